@@ -1021,6 +1021,13 @@ class Exec:
             if mods:
                 cands = [f for f in cands if _module_hint(f, '::'.join(mods))]
             return cands[0] if len(cands) == 1 else None
+        mi = re.match(r'^(.*?)<impl (.*)>::(\w+)$', c, re.S)
+        if mi:
+            # macro-generated inherent impl: `mod::_::<impl Type<..>>::method`
+            mod, ty, meth = mi.group(1), M.type_head(mi.group(2)), mi.group(3)
+            cands = [f for f in prog.by_last.get(meth, []) if f.raw.startswith(mod) and f.args and ty and re.search(r'\b' + re.escape(ty) + r'\b', f.decl.get(f.args[0], ''))]
+            cands = _dedupe(cands)
+            return cands[0] if len(cands) == 1 else None
         s = M.strip_generics(c)
         segs = [x for x in s.split('::') if x]
         if not segs:
@@ -1109,6 +1116,8 @@ class Exec:
     def opaque_call(self, p, call, k, effect=None):
         name = self.result_name(p, call)
         ret = self.fresh(name, call.retty)
+        if isinstance(ret, Sym):
+            ret = ret.with_ov('from', (call.short, tuple(call.args)))
         p.events.append(Event('call', call.short, call.args, ret, call.span, call.depth, effect))
         k(p, ret)
 
@@ -1127,6 +1136,11 @@ class Exec:
 
     def call_closure(self, p, clo, args, call, k):
         """invoke a closure value with `args` (tuple of values)"""
+        if isinstance(clo, Const) and '{closure' not in clo.text and re.match(r'^[\w:<>, ]+$', clo.text.replace('ZeroSized: ', '')):
+            # a function item used as a callable (e.g. `.map(Duration::from_millis)`): an ordinary call
+            name = clo.text.replace('ZeroSized: ', '').strip()
+            c2 = Call(name, list(args), call.retty if False else '', call.span, call.fn, call.depth, call.frame, None)
+            return self.dispatch(p, c2, k)
         f = self.closure_fn(clo)
         if f is None or call.depth >= self.max_depth + 2:
             name = f'closure({vname(clo)})({",".join(vname(a) for a in args)})'
@@ -1143,6 +1157,28 @@ class Exec:
             self_arg = clo
         # remaining args: MIR closure bodies take the argument tuple spread as _2, _3, ..
         return self.run_fn(f, [self_arg] + list(args), p, call.depth + 1, k)
+
+
+def derives_from(v, pred, depth=0, ex=None, p=None):
+    """does value `v` (transitively through call arguments, aggregate fields and - if ex/p are given -
+    pointers, read in the path's final memory) contain a value satisfying pred"""
+    if depth > 40:
+        return False
+    if pred(v):
+        return True
+    if isinstance(v, Ptr) and ex is not None and p is not None:
+        try:
+            return derives_from(ex.read_loc(p, None, v.key, v.projs), pred, depth + 1, ex, p)
+        except Exception:
+            return False
+    if isinstance(v, Agg):
+        return any(derives_from(x, pred, depth + 1, ex, p) for x in v.fields)
+    if isinstance(v, Sym):
+        fr = v.get_ov('from')
+        if fr is not None and (pred(('call', fr[0])) or any(derives_from(x, pred, depth + 1, ex, p) for x in fr[1])):
+            return True
+        return any(derives_from(val, pred, depth + 1, ex, p) for key, val in v.ov if key not in ('from', 'discr', 'head') and not isinstance(val, str))
+    return False
 
 
 def _has_mut_ptr(a, depth=0):
